@@ -129,10 +129,9 @@ def handle (op : String) (j : Json) : Except String Json := do
     let toks := lex out
     let lexOk := toks == some (toksDoc d)
     let built := (build BState.init (toksDoc d)).bind BState.finish
-    let buildOk := (built.map fun r => toString (repr r)) == some (toString (repr (rawDoc d)))
-    let res := (resolve [] (rawDoc d).root).map fun r => toString (repr r)
-    let resOk := res == some (toString (repr (canonElem d.root)))
-    let parseOk := ((parse out).map fun r => toString (repr r)) == some (toString (repr (canonDoc d)))
+    let buildOk := match built with | some r => Doc.beq r (rawDoc d) | none => false
+    let resOk := match resolve [] (rawDoc d).root with | some r => Elem.beq r (canonElem d.root) | none => false
+    let parseOk := match parse out with | some r => Doc.beq r (canonDoc d) | none => false
     let idem := (serialize ll true [] true (canonDoc d)) == out
     pure (Json.mkObj [("wf", wfDoc d), ("lex", lexOk), ("build", buildOk), ("resolve", resOk),
       ("parse", parseOk), ("canon_same_bytes", idem)])
